@@ -33,6 +33,7 @@ every equality is decided by TLC.
 import hashlib
 import itertools
 import json
+import os
 import random
 from concurrent.futures import ThreadPoolExecutor
 
@@ -871,9 +872,11 @@ def m_config(name, L, client, extra=""):
 TRACE_CONST = 'CONSTANT Cfg = "req"\nCONSTANT L = 1\nCONSTANT Client = TRUE'
 
 
-def judge(check, lines, name):
+def judge(check, lines, name, shards=None):
+    if shards is None:
+        shards = max(1, min(8, len(lines) // 4000))      # a JVM start costs as much as judging a few thousand lines
     fails = trace.validate(check, "TraceH3", [strip(ln) for ln in lines], constants=TRACE_CONST, name=name,
-                           group_key=lambda ln: ln["back"] == 0)
+                           group_key=lambda ln: ln["back"] == 0, shards=shards)
     check.cov["traces_validated_against_impl"] += len(lines)
     return fails
 
@@ -1002,16 +1005,17 @@ def replay(check):
 def run(check):
     check.build_overlay()
     load_aioquic()
+    # many short TLC runs: keep the JVMs small (few GC threads; the quick tier never gets hot enough for C2)
+    os.environ["_JAVA_OPTIONS"] = "-XX:ParallelGCThreads=4" + (" -XX:TieredStopAtLevel=1" if check.quick else "")
     if check.replay:
         return replay(check)
     rnd = random.Random(check.seed)
     thorough = not check.quick
-
     # (M) the theorem on the design, configurations in parallel with (R)/(V) driving
-    plans = [("req", 8, True, 4), ("req", 8, False, 3), ("push", 6, True, 3), ("reqenc", 6, True, 3),
-             ("two", 3, True, 3), ("uni", 3, True, 2), ("uni", 3, False, 2)] if check.quick else \
+    plans = [("req", 7, True, 3), ("req", 6, False, 2), ("push", 5, True, 2), ("reqenc", 5, True, 3),
+             ("two", 3, True, 3), ("uni", 2, True, 2)] if check.quick else \
             [("req", 10, True, 6), ("req", 9, False, 4), ("push", 8, True, 4), ("push", 6, False, 2), ("reqenc", 8, True, 4),
-             ("reqenc", 6, False, 2), ("two", 4, True, 6), ("uni", 4, True, 3), ("uni", 4, False, 3)]
+             ("reqenc", 6, False, 2), ("two", 4, True, 6), ("uni", 4, True, 3), ("uni", 3, False, 2)]
     pool = ThreadPoolExecutor(max_workers=len(plans))
     futs = [pool.submit(check.run_tlc, "H3Stream", m_config(n, L, c), name="H3Stream_M_%s_%s_%d" % (n, "client" if c else "server", L), workers=w)
             for n, L, c, w in plans]
@@ -1022,7 +1026,7 @@ def run(check):
     by_len = {}
     for q in seqs:
         by_len.setdefault(len(q), []).append(q)
-    quota = {1: 10 ** 9, 2: 10 ** 9, 3: 2500, 4: 1500} if thorough else {1: 10 ** 9, 2: 240, 3: 300}
+    quota = {1: 10 ** 9, 2: 10 ** 9, 3: 2500, 4: 1500} if thorough else {1: 10 ** 9, 2: 160, 3: 200}
     seqs = [q for n in sorted(by_len) for q in (by_len[n] if len(by_len[n]) <= quota.get(n, 0) else rnd.sample(by_len[n], quota.get(n, 0)))]
     lines, index = run_r(check, rnd, seqs, thorough)
     fails = judge(check, lines, "TraceH3_R")
